@@ -161,6 +161,10 @@ func (r *foRun) c03Cell() string {
 		state += "(decorated backend)"
 	}
 
+	if sc.PlainExpired {
+		state += "(expired without item)"
+	}
+
 	return fmt.Sprintf("%s failCached=%v syncUpdate=%v failHard=%v maxStaleness=%v failedTTL=%d buildErr=%v api=%s",
 		state, in.FailAgeNs >= 0, sc.Cfg.SyncUpdate, sc.Cfg.FailHard, sc.Cfg.MaxStalenessNs > 0, sc.Cfg.FailedUpdateTTLNs, sc.Clients[0][0].BuildFail, sc.API+"/"+sc.Backend)
 }
@@ -189,6 +193,13 @@ func (r *foRun) oracleC03() {
 		} else {
 			state = "staleok"
 		}
+	}
+
+	if sc.PlainExpired && state != "fresh" {
+		// the backend cannot hand out the expired value: nothing to serve, nothing to fall back to
+		state = "absent"
+
+		out.probe("expired_entry_without_item")
 	}
 
 	bad := func(what, format string, args ...interface{}) {
